@@ -121,7 +121,11 @@ BaseStatus(d, i) ==
     [] OTHER -> CORE
 
 Overrides(d) == IF HasField(d, "ov") THEN d.ov ELSE <<>>
-OvIndex(d, e) == IF d.t = "raster" THEN (IF e[1] >= 0 /\ e[1] < d.nr /\ e[2] >= 0 /\ e[2] < d.nc
+\* (an optional last component 1 marks an index given as 2^63 + e[1] - what a negative integer becomes as
+\* an unsigned key; TLC's integers cannot hold it: such an entry is out of range whatever e[1] is)
+OvHuge(d, e) == IF d.t = "raster" THEN Len(e) = 4 /\ e[4] = 1 ELSE Len(e) = 3 /\ e[3] = 1
+OvIndex(d, e) == IF OvHuge(d, e) THEN 0 - 1
+                 ELSE IF d.t = "raster" THEN (IF e[1] >= 0 /\ e[1] < d.nr /\ e[2] >= 0 /\ e[2] < d.nc
                                            THEN e[1] * d.nc + e[2] ELSE 0 - 1)
                  ELSE (IF e[1] >= 0 /\ e[1] < Size(d) THEN e[1] ELSE 0 - 1)
 OvStatus(d, e) == IF d.t = "raster" THEN e[3] ELSE e[2]
